@@ -114,17 +114,6 @@ def eventOf (c : Cfg) (s : St) (new : SState) (newType : SType) : Ev :=
   else if stateChange c.kind s.state new || newType == .soft then .soft
   else .none
 
-/-- checkable-check.cpp:443-454 as written: the hard branch is decided from locals computed under the object
-    lock (`hardChange`, `is_volatile`, `old_state`, `new_state`), the soft branch RE-READS the object's
-    state type (`GetStateType() == StateTypeSoft`, :453) after both locked sections are over.  `readType` is
-    what that read returns: the type this result wrote, unless another result was processed in between. -/
-def eventRead (c : Cfg) (s : St) (new : SState) (newType readType : SType) : Ev :=
-  let okOld := isOK c.kind s.state
-  let okNew := isOK c.kind new
-  if hardChangeOf c s new newType || (c.volatile && !(okOld && okNew)) then .hard
-  else if stateChange c.kind s.state new || readType == .soft then .soft
-  else .none
-
 /-- The step without the stale-result filter.  checkable-check.cpp:203 (`SetLastStateRaw(old_state)`),
     :297-301 (`if (hardChange || is_volatile) { SetLastHardStateRaw(new_state); …
     SetLastHardStatesRaw(GetLastHardStatesRaw() / 100u + new_state * 100u); }`). -/
@@ -139,12 +128,12 @@ def stepCore (c : Cfg) (s : St) (r : Res) : St × Ev :=
    eventOf c s r.state ta.1)
 
 /-- A result that is overtaken: `a` is processed up to its `OnNewCheckResult` signal, `b` is processed
-    completely, then `a` reports its state change (no stale filter: both are accepted).  Returns the
-    state after `a` with `a`'s event, and the state after `b` with `b`'s event. -/
+    completely, then `a` reports its state change (no stale filter: both are accepted).  Since b75b8e7 the
+    emission uses the state type `a` itself computed (`new_stateType`, captured under the object lock,
+    checkable-check.cpp), so what `b` wrote meanwhile has no influence: the two steps of the sequence. -/
 def stepOvertaken (c : Cfg) (s : St) (a b : Res) : (St × Ev) × (St × Ev) :=
   let pa := stepCore c s a
-  let pb := stepCore c pa.1 b
-  ((pa.1, eventRead c s a.state pa.1.stype pb.1.stype), pb)
+  (pa, stepCore c pa.1 b)
 
 /-- One `ProcessCheckResult` call: (new state, event, accepted?). -/
 def step (c : Cfg) (s : St) (r : Res) : St × Ev × Bool :=
